@@ -11,7 +11,11 @@ sys.path.insert(0, os.path.join(C.VERIF, "xlate"))
 LEVEL = "proof"
 MODULE = "SvtVerif.Props.C24"
 PROC_C = "Source/Lib/Encoder/Codec/EbEncDecProcess.c"
-KNOWN_KEY = "F2-w1-segment-hang"
+# Regression grids for the repaired defect F2 (fix: "enc_dec_segments_init ... one superblock wide"): a picture / tile group one SB
+# wide with >= 2 effective segment rows never completed.  (W, H, C, R, MC, MR); the first is the 64x256 picture (64x64 SBs) that hung
+# the real encoder with default threads.  They are ordinary cases of the oracle now: if one of them (or any other grid) reaches
+# quiescence with unfinished segments the check reports a VIOLATION with that grid as the replay.
+W1_REGRESSION = [(1, 4, 1, 4, 1, 4), (1, 2, 1, 2, 1, 2), (1, 17, 1, 17, 1, 17), (1, 34, 6, 37, 6, 37), (1, 9, 3, 5, 4, 5)]
 MAXC, MAXR = 60, 37          # ENCDEC_SEGMENTS_MAX_COL_COUNT / ENCDEC_SEGMENTS_MAX_ROW_COUNT (EbEncDecSegments.h)
 
 
@@ -112,7 +116,7 @@ def gen_ops(chk):
     """Seeded op list. Each grid is (W,H,C,R,MC,MR); MC >= C always (ctor allocates for its col count)."""
     rng = chk.rng
     mc_hdr, mr_hdr = header_maxima()
-    grids = []
+    grids = list(W1_REGRESSION)
     if chk.tier == "quick":
         for W in range(1, 66):
             for H in range(1, 35):
@@ -158,6 +162,11 @@ def gen_ops(chk):
         if i % nsched_every == 0 or g[0] <= 2:
             n = rng.choice([1, 1, 2, 2, 3, 4, 5, 8, 16, 33])
             ops.append("sched %d %d %d %d %d %d %d %d %d 0\n" % (g + (n, rng.next() & 0xFFFFFFFF, rng.below(7))))
+            if i < len(W1_REGRESSION):
+                # the regression grids additionally under every scheduler mode with 1 and with many workers
+                for mode in range(7):
+                    for n in (1, 4):
+                        ops.append("sched %d %d %d %d %d %d %d %d %d 0\n" % (g + (n, rng.next() & 0xFFFFFFFF, mode)))
     return ops
 
 
@@ -203,10 +212,8 @@ def evaluate(chk, ops, model_ok=True):
                 res["disagree"].append((" ".join(a.split()[:7]), a, b))
         for l in wf:
             f = l.split()
-            W = int(f[1])
             d = kv(f[8:])
-            live_expected = (W >= 2 or int(d["rows"]) == 1)
-            if d["safe"] != "true" or (d["live"] == "true") != live_expected:
+            if d["safe"] != "true" or d["live"] != "true":
                 res["wf_bad"].append(l)
     return res
 
@@ -229,7 +236,7 @@ def run(chk, ops=None):
     if ops is None:
         ops = gen_ops(chk)
     res = evaluate(chk, ops, model_ok=pr.build_ok)
-    real_fail, known = [], []
+    real_fail = []
     hist_rows, hist_n, hist_mode = {}, {}, {}
     distinct = set()
     depmax = 0
@@ -239,7 +246,7 @@ def run(chk, ops=None):
         depmax = max(depmax, int(d["depmax"]))
         if any(d[k] != "0" for k in INIT_ZERO) or d["alloc_ok"] != "1" or int(d["depmax"]) > 2:
             real_fail.append(("init", "init %s 0" % " ".join(f[2:8]), l))
-    stuck_family = 0
+    w1_multi_req, w1_done = 0, 0
     for l in res["oracle_sched"]:
         f = l.split()
         W, H, Cc, R, MC, MR, N, seed, mode = [int(x) for x in f[2:11]]
@@ -251,32 +258,35 @@ def run(chk, ops=None):
         hist_mode[mode] = hist_mode.get(mode, 0) + 1
         if rows > 1 and W > 1:
             distinct.add((W, H, min(Cc, W), rows))
+        if W == 1 and min(R, H, MR) >= 2:
+            w1_multi_req += 1
+            distinct.add((W, H, 1, min(R, H, MR)))
         if d["order_viol"] != "0" or d["double_start"] != "0":
             real_fail.append(("order", op, l))
-        incomplete = d["unfinished"] != "0" or d["quiescent"] != "1" or d["sbs_done"] != d["sbs_total"]
+        # no exempted grid: quiescent, every valid segment finished, every SB processed exactly once by a finished segment
+        incomplete = (d["unfinished"] != "0" or d["quiescent"] != "1" or d["sbs_done"] != d["sbs_total"] or
+                      d["sb_unproc"] != "0" or d["sb_bad_owner"] != "0")
         if incomplete:
-            if W == 1 and rows >= 2:
-                stuck_family += 1
-                known.append((op, l))
-            else:
-                real_fail.append(("hang", op, l))
-        elif W == 1 and rows >= 2:
-            # the known defect no longer reproduces on this grid: the model (which has it) will disagree; nothing to do here
-            pass
+            real_fail.append(("hang", op, l))
+        elif W == 1 and min(R, H, MR) >= 2:
+            w1_done += 1
     chk.cov["evaluations"] = len(ops)
     chk.cov["init_ops"] = len(res["oracle_init"])
     chk.cov["sched_ops"] = len(res["oracle_sched"])
     chk.cov["model_lines_compared"] = res["model_lines"]
     chk.cov["distinct_nontrivial"] = len(distinct)
-    chk.cov["rule"] = ("distinct effective grids (W, H, min(C,W), effective segment rows) with W >= 2 and >= 2 segment rows that were driven "
-                       "through the real assign_enc_dec_segments under an adversarial schedule; every op line is also an init comparison "
-                       "of all arrays + the SB loop of every segment")
+    chk.cov["rule"] = ("distinct grids (W, H, min(C,W), segment rows) that were driven through the real assign_enc_dec_segments under an "
+                       "adversarial schedule and have either W >= 2 and >= 2 effective segment rows, or W == 1 and >= 2 requested segment "
+                       "rows (the grids that hung before the fix); every op line is also an init comparison of all arrays + the SB loop "
+                       "of every segment")
     chk.cov["segment_rows_histogram"] = {str(k): v for k, v in sorted(hist_rows.items())}
     chk.cov["workers_histogram"] = {str(k): v for k, v in sorted(hist_n.items())}
     chk.cov["scheduler_mode_histogram"] = {str(k): v for k, v in sorted(hist_mode.items())}
     chk.cov["dependency_count_max_seen"] = depmax
-    chk.cov["w1_stuck_family_runs"] = stuck_family
-    chk.cov["stuck_characterisation"] = "on the real code a run fails to complete iff W == 1 and effective segment rows >= 2 (checked on every sched op)"
+    chk.cov["w1_multi_row_request_runs"] = w1_multi_req
+    chk.cov["w1_multi_row_request_runs_completed"] = w1_done
+    chk.cov["completion"] = ("every sched op must end quiescent with all segments finished and every SB processed exactly once, "
+                             "including W == 1 with >= 2 requested segment rows (hung before the fix of finding F2)")
     chk.cov["loop_header_fragments_verbatim"] = not missing
     if res["canon"]:
         chk.sample({"harness": res["canon"][len(res["canon"]) // 2][:300]})
@@ -285,18 +295,22 @@ def run(chk, ops=None):
         chk.sample({"oracle": res["oracle_sched"][len(res["oracle_sched"]) // 3]})
     chk.assumptions += ["W, H, C, R >= 1 and C <= the constructor's column count (as in EbEncHandle.c / EbPictureControlSet.c)",
                         "each mutex-protected block is atomic; no blocking in svt_get_empty_object for feedback tasks",
-                        "completion theorem hypothesis: 2 <= W or effective segment rows = 1 (the excluded grids really hang: F2)"]
-    if known:
-        op, l = known[0]
-        chk.violation("EncDec segment scheduling never completes the picture (real assign_enc_dec_segments under the harness scheduler)\n"
-                      "input: %s\n%s\nruns in this family (W == 1, >= 2 segment rows): %d\n" % (op, l, len(known)), key=KNOWN_KEY)
+                        "size hypotheses InitOK: W, H <= 4096 SBs, W*H < 65536 SBs, segment count < 65536 (no other hypothesis: "
+                        "the completion theorems hold for every grid, including pictures one SB wide)"]
     if real_fail:
         kind, op, l = real_fail[0]
         what = {"init": "enc_dec_segments_init / SB loop: a superblock is not processed exactly once by its segment (or arrays inconsistent)",
                 "order": "a segment was handed out before a segment holding a left/upper/upper-left/upper-right neighbour SB finished, or twice",
-                "hang": "segment scheduling reached quiescence with unfinished segments (picture never completes)"}[kind]
-        chk.violation("%s\n%s\n%s\nfailing ops in this run: %d\nreplay: bin/check C24 --replay <this file>\n" %
-                      (what, op, l, len(real_fail)))
+                "hang": "segment scheduling reached quiescence with unfinished segments / unprocessed superblocks "
+                        "(the picture never completes: the real encoder hangs)"}[kind]
+        f = op.split()
+        note = ""
+        if kind == "hang" and f[1] == "1":
+            note = ("grid: picture / tile group 1 SB wide x %s SBs high (e.g. a 64x%d picture with 64x64 SBs), %s segment rows requested: "
+                    "regression of the fix for finding F2 (enc_dec_segments_init must use one segment row when pic_width_sb == 1)\n"
+                    % (f[2], 64 * int(f[2]), f[4]))
+        chk.violation("%s\n%s\n%s\n%sfailing ops in this run: %d\nreplay: bin/check C24 --replay <this file>\n" %
+                      (what, op, l, note, len(real_fail)))
         return
     if not pr.ok:
         chk.violation("proof obligations no longer check:\n%s\nforbidden tokens: %s\n"
@@ -312,8 +326,8 @@ def run(chk, ops=None):
         chk.violation("Lean model and real code disagree, but the real outputs satisfy the property oracle\n%s\nC   : %s\nLean: %s\n"
                       "disagreeing lines: %d\n" % (key, a[:2000], b[:2000], len(res["disagree"])), tag="corr", found_input=False)
     elif res["wf_bad"]:
-        chk.violation("structural check wfCheck (hypothesis of the scheduling theorems) does not hold of initSeg where expected "
-                      "(safe must be true everywhere; live must be true iff W >= 2 or rows = 1)\n%s\n" % res["wf_bad"][0],
+        chk.violation("structural check wfCheck (hypotheses WF / Live of the scheduling theorems) does not hold of initSeg "
+                      "(safe and live must be true for every grid)\n%s\n" % res["wf_bad"][0],
                       tag="corr", found_input=False)
 
 
